@@ -136,6 +136,7 @@ type arun struct {
 	wild  bool // arbitrary floats: no order-independent reference
 	h     history
 	panic string // first panic of a logical thread (recovered): a violation, never a silent crash
+	lean  bool   // (the second adder of a -twin run) it is left out of the first concurrent phase of every other thread: it sees less contention and grows less
 	twin  *arun  // -twin: a second adder of the same type alive at the same time; every operation is made on both (two objects are independent)
 }
 
@@ -158,7 +159,7 @@ func (r *arun) body(tid int, th athread) func() {
 			vsched.Point()
 			cur = op.kind
 			r.do(tid, op)
-			if r.twin != nil {
+			if r.twin != nil && !(r.twin.lean && tid%2 == 1 && th.phase == 1) {
 				vsched.Point()
 				cur = op.kind + " (second adder)"
 				r.twin.do(tid, op)
@@ -419,7 +420,7 @@ func runAdder(fs *flag.FlagSet, args []string) {
 		r.wild = lastWild
 		if *twin {
 			a2, _, _, _ := newAdder(*impl, via)
-			r.twin = &arun{a: a2, float: float, wild: lastWild}
+			r.twin = &arun{a: a2, float: float, wild: lastWild, lean: rng.Intn(2) == 0}
 		}
 		alg := "int"
 		if float {
